@@ -10,6 +10,16 @@ CHECKS = {
          "The build loop and serving read are model-checked for every layout of <= 3 (quick) / 4 (thorough) sections over 7 kinds x 3 varint-width classes x 2 header sizes; TLC-generated archives (any shape of blocks / entries / transactions / rewards / frame chains, epochs 0..700) plus directed CARs (section bodies exactly at 127..129 and 16383..16512, 16 800 first signatures concentrated in two adjacent prefixes; thorough: 9 999 / 10 001 / 20 001 items) are written with the reference encoder, indexed by the real command in a child process and queried through the real Epoch with the CAR served from the local file and over loopback HTTP; TLC judges every fetch / slot / signature answer against the builder's ground truth.",
          "Only well-formed CARs; an index run that reports an error is counted as inconclusive for that CAR, not as a violation; archives are sampled by TLC -simulate.",
          "DESIGN.md section 7, C01", "carindex"),
+ "C02": ("model_checking",
+         "TLC exhaustive check of code-shaped Rpc.tla (routing, lossy index + key check, errgroup fetch orders, assembly) ; TLC-simulated multi-epoch archives served by the real handlers; TLC trace judge (Trace_Rpc.tla / RpcAbs.tla)",
+         "The handler model is checked for every request over a 3-epoch model archive x 6 loaded sets x every completion order of the parallel fetches; TLC-generated archives (incl. epoch 0 with genesis, multi-frame payloads, skipped slots, parents in other epochs) are built, indexed and loaded in every non-empty combination, and every archived slot and signature is requested over JSON-RPC (4 encodings) and gRPC with search concurrency -1/1/2/NumCPU; TLC judges every projected response against the archive.",
+         "Well-formed archives (>= 1 entry per block; parent_slot = 0 only at slots 0/1; epoch 0 contains slot 0); slot 0 exempt from block-time / height (genesis values); JSON metadata compared on err / fee / loaded addresses, everything else byte for byte.",
+         "DESIGN.md section 7, C02", "rpc"),
+ "C03": ("model_checking",
+         "TLC check of Rpc.tla with a lossy index (absent key aliases any stored key) incl. negative configuration; absent and hash-aliasing keys (found with the index's own hash) requested from the real server; TLC trace judge (Trace_Rpc.tla)",
+         "The model shows that with the slot / signature comparison no absent key is answered with another object for any alias relation (and that without it TLC finds the wrong-object reply); on the real server every skipped slot, keys of unloaded epochs, random signatures and absent slots / signatures whose 24-bit in-bucket hash equals a stored one are requested with 1..3 epochs loaded over JSON-RPC and gRPC; TLC judges that each answer is not-found / unavailable.",
+         "sig-exists (64-bit) treated as exact; the address-history clause (getSignaturesForAddress) is exercised by the C07 pipeline.",
+         "DESIGN.md section 7, C03", "rpc"),
  "C15": ("model_checking",
          "TLC exhaustive check of PlusCal Accum.tla (every CAR layout x reader/flusher interleaving); TLC-simulated layouts+schedules forced on the real ObjectAccumulator through a gated io.Reader and gated callback; TLC trace judge (Trace_Accum.tla)",
          "Every layout of <= 4 (quick) / 6 (thorough) sections over {flush kind, kept, ignored} x body lengths at a varint boundary, with every interleaving of reader and flusher and queue capacities 1-2, is explored exhaustively (prefix/complete/no-aliasing/termination); TLC-generated layouts and schedules are forced on the real accumulator, plus free-running real-scale runs (1 500 groups, > 5 000 children, slow / random consumers, GOMAXPROCS 1/2/16); delivered groups with offsets are judged by TLC against the true offsets measured by the CAR writer.",
@@ -37,6 +47,8 @@ CHECKS = {
          "DESIGN.md section 7, C06", "gsfa"),
 }
 ENGINES = [
+ {"name": "rpc", "path": "spec/Rpc.tla", "serves_properties": ["C02", "C03"],
+  "kind_free_text": "TLA+ Ledger + RpcAbs/Rpc/MC_Rpc + Trace_Rpc; Go harness/main/rpc_test.go (JSON-RPC via in-memory fasthttp ctx, gRPC methods called directly)"},
  {"name": "carindex", "path": "spec/CarIndex.tla", "serves_properties": ["C01"],
   "kind_free_text": "TLA+ Ledger/Gen_Ledger (archive vocabulary + generator), CarIndexAbs/CarIndex, Trace_CarIndex; Go harness/main/{helpers,arch,c01}_test.go + zzverif/fixture"},
  {"name": "accum", "path": "spec/Accum.tla", "serves_properties": ["C15"],
